@@ -315,3 +315,33 @@ Proof.
   unfold doc_len in E. destruct (span_digits v) as [ds rest]. destruct (digits_val ds =? 0); [discriminate|].
   injection E as <-. unfold clamp. lia.
 Qed.
+
+(** * the statements of Properties_C08.v, for both syslog options and both length options at once *)
+Theorem syslog_names c : config_consts_ok c = true -> forall v, single_strip c = true \/ no_double_prefix v = true ->
+  parse_facility c v = match doc_syslog (doc_fac c) v with Some n => n | None => d_facility c end
+  /\ parse_level c v = match doc_syslog (doc_lvl c) v with Some n => n | None => d_level c end.
+Proof. intros H v D. split; [exact (syslog_facility_names c H v D)|exact (syslog_level_names c H v D)]. Qed.
+
+Theorem len_clamp_both c : config_consts_ok c = true -> forall ds suf, forallb is_digit ds = true -> suffix_ok suf -> 1 <= digits_val ds ->
+  bytelen c (ds_min c) (ds_max c) (ds_def c) (ds ++ suf) = clamp (doc_ds_min c) (doc_ds_max c) (digits_val ds * doc_factor suf)
+  /\ bytelen c (log_min c) (log_max c) (log_def c) (ds ++ suf) = clamp (doc_log_min c) (doc_log_max c) (digits_val ds * doc_factor suf).
+Proof.
+  intros H ds suf D S V. destruct (ok_ds c H) as [_ [A [_ [A1 [A2 _]]]]]. destruct (ok_log c H) as [_ [B [_ [B1 [B2 _]]]]].
+  rewrite <- A1, <- A2, <- B1, <- B2. split; apply (len_clamp c H); assumption.
+Qed.
+
+Theorem len_monotone_both c : config_consts_ok c = true -> forall d1 d2 suf, forallb is_digit d1 = true -> forallb is_digit d2 = true -> suffix_ok suf ->
+  1 <= digits_val d1 -> digits_val d1 <= digits_val d2 ->
+  bytelen c (ds_min c) (ds_max c) (ds_def c) (d1 ++ suf) <= bytelen c (ds_min c) (ds_max c) (ds_def c) (d2 ++ suf)
+  /\ bytelen c (log_min c) (log_max c) (log_def c) (d1 ++ suf) <= bytelen c (log_min c) (log_max c) (log_def c) (d2 ++ suf).
+Proof.
+  intros H d1 d2 suf D1 D2 S V1 V2. destruct (ok_ds c H) as [_ [A _]]. destruct (ok_log c H) as [_ [B _]].
+  split; apply (len_monotone c H); assumption.
+Qed.
+
+Theorem len_zero_default_both c : config_consts_ok c = true -> forall v, digits_val (fst (span_digits v)) = 0 ->
+  bytelen c (ds_min c) (ds_max c) (ds_def c) v = doc_ds_def c /\ bytelen c (log_min c) (log_max c) (log_def c) v = doc_log_def c.
+Proof.
+  intros H v Z. destruct (ok_ds c H) as [_ [A [_ [_ [_ A3]]]]]. destruct (ok_log c H) as [_ [B [_ [_ [_ B3]]]]].
+  rewrite <- A3, <- B3. split; apply (len_zero_default c H); assumption.
+Qed.
